@@ -104,10 +104,16 @@ def selftest(argv):
             t0 = time.time()
             p = subprocess.run([os.path.join(build.VERIF, 'bin', 'check'), prop, 'quick'], capture_output=True, text=True, env=env)
             keys = re.findall(r'^VIOLATION property=\S+ replay=\S+ key=(\S+)', p.stdout, re.M)
-            hit = [k for k in keys if re.search(pattern, k)]
-            status = 'caught' if hit and p.returncode == 1 else 'MISSED'
-            if status == 'MISSED':
-                ok = False
+            if pattern == 'QUIET':
+                # a legitimate change: the check must stay quiet
+                status = 'quiet' if p.returncode == 0 and not keys else 'FALSE-ALARM'
+                if status != 'quiet':
+                    ok = False
+            else:
+                hit = [k for k in keys if re.search(pattern, k)]
+                status = 'caught' if hit and p.returncode == 1 else 'MISSED'
+                if status == 'MISSED':
+                    ok = False
             print('SELFTEST %-44s %s %-7s %3.0fs exit=%d keys=%s' % (patch, prop, status, time.time() - t0, p.returncode,
                                                                     ','.join(sorted(set(k.split(':')[0] for k in keys)))[:80]))
         finally:
